@@ -19,7 +19,8 @@ RULE = (
     "tailed zones, the first 5 tail years, 2037-2040, 9990-end and 40 seed-chosen years; thorough = every interval "
     "from the start to the end of time (exhaustive for the bundled database). Plus generated instants (local "
     "adjacency form), all cached fixed-offset zones and generated offsets, and synthetic zones built from generated "
-    "yearly rules / period lists. Non-trivial = an interval with both ends (a real transition on each side); "
+    "yearly rules / period lists (incl. Feb-29 rules); per interval also duration, ISO local bounds and the refusal to "
+    "name a missing bound. Non-trivial = an interval with both ends (a real transition on each side); "
     "distinct by construction per (zone, interval start) in walks, (kind, case) hash otherwise."
 )
 ASSUMPTIONS = ["synthetic zones (not in the property's scope) are checked for containment/abutment/termination only"]
